@@ -493,6 +493,17 @@ def step(ctx, c, twin, dtypes, hist, kind, n, span, op, optag, opval_factory, ta
     # strict clauses
     # "existing name" is decided on what is observable (the instance carries it), not on the container's own bookkeeping
     exists_before = target in before['attrs'] or target in before['keys']
+    if strict_now and op == 'newattr' and isinstance(target, str) and target.startswith('_') and target[1:] in before['index']:
+        ctx.count('strict_private_slot_assignments')
+        if outcome != 'AttributeError' or not series_same(before, after) or after['attrs'] != before['attrs']:
+            ctx.violation('strict-new-attribute', f'{kind}: with strict=True, setting attribute {target!r} (the storage slot of variable {target[1:]!r}, not a variable or attribute of the object) -> {outcome}; '
+                                                  f'attributes {before["attrs"]} -> {after["attrs"]}; series unchanged: {series_same(before, after)}', case)
+            return False
+        # (the suggestion is drawn from the variables: for models and linkers that leaves out the solution records)
+        if target[1:] in (before['index'] if kind == 'container' else list(c.__dict__.get('names', before['index']))) and f"'{target[1:]}'" not in msg:
+            ctx.violation('strict-near-miss-not-reported', f'{kind}: refusal of {target!r} does not suggest the variable {target[1:]!r}: {msg!r}', case)
+            return False
+        return check_invariant(ctx, c, dtypes, hist, kind)
     if strict_now and op == 'newattr' and not exists_before and target not in before['index']:
         if outcome == 'ok' or after['attrs'] != before['attrs'] or after['keys'] != before['keys']:
             ctx.violation('strict-new-attribute', f'{kind}: with strict=True, setting new attribute {target!r} -> {outcome}; attributes {before["attrs"]} -> {after["attrs"]}', case)
@@ -561,6 +572,10 @@ def choose(rng, c, n, span, op):
     if op == 'add_attr':
         return rng.choice(['note', 'A', 'span', 'memo'] + names[:2]), None
     if op == 'newattr':
+        if c.__dict__.get('_strict') and names and rng.random() < 0.2:
+            # under strict, the name of a variable's private storage slot: to the user a new non-variable attribute like any other
+            # (refused, the variable suggested); not tried without strict, where the same assignment legitimately lands in __dict__
+            return '_' + rng.choice(names), None
         return rng.choice(['a', 'Aa', 'note2', 'b', 'Bb', 'c_', 'note', 'memo', 'note', 'memo', 'copy', 'solve', 'LAGS', 'NAMES', 'eval', 'size', 'reindex', 'to_dataframe', 'ENDOGENOUS']), None
     return None, None
 
